@@ -207,6 +207,8 @@ func c01Inputs(seed uint64, n int, deep bool, emit func(kind string, b []byte)) 
 				dup = 0
 			case 2:
 				dup = nn - 1
+			case 3:
+				dup = -2 - r.IntN(3) // at or next to the switch of the name set
 			default:
 				dup = r.IntN(nn)
 			}
